@@ -824,28 +824,32 @@ impl UnorderedPartialEq for Object {
 			return false;
 		}
 
-		if !self.iter().all(|Entry { key, value: a }| {
-			other
-				.get_entries(key)
-				.any(|Entry { value: b, .. }| a.unordered_eq(b))
-		}) {
-			return false;
+		if !self.indexes.contains_duplicate_keys() {
+			// The keys of `self` are unique and both objects have the same
+			// number of entries: matching every entry of `self` is enough.
+			return self.iter().all(|Entry { key, value: a }| {
+				other
+					.get_entries(key)
+					.any(|Entry { value: b, .. }| a.unordered_eq(b))
+			});
 		}
 
-		if self.indexes.contains_duplicate_keys()
-			&& !other.iter().all(
-				|Entry {
-				     key: other_key,
-				     value: b,
-				 }| {
-					self.get_entries(other_key)
-						.any(|Entry { value: a, .. }| a.unordered_eq(b))
-				},
-			) {
-			return false;
-		}
+		// With duplicate keys, each entry of `other` must be matched by a
+		// different entry of `self`.
+		let mut matched = vec![false; other.entries.len()];
+		self.iter().all(|Entry { key, value: a }| {
+			let found = other
+				.get_entries_with_index(key)
+				.find(|(i, Entry { value: b, .. })| !matched[*i] && a.unordered_eq(b));
 
-		true
+			match found {
+				Some((i, _)) => {
+					matched[i] = true;
+					true
+				}
+				None => false,
+			}
+		})
 	}
 }
 
